@@ -1218,16 +1218,25 @@ class SpectrumResult:
                 elif name == "Hyx":
                     val = np.conj(self.Hxy)
                 elif name == "coh":
+                    # (|XY|/XX) * (|XY|/YY): |XY|^2 and XX*YY over/underflow for
+                    # very large/small signals although the ratio is O(1)
+                    absXY = np.abs(self._data["XY"])
+                    nonzero = (self._data["XX"] != 0) & (self._data["YY"] != 0)
                     val = np.divide(
-                        np.abs(self._data["XY"]) ** 2,
-                        self._data["XX"] * self._data["YY"],
+                        absXY,
+                        self._data["XX"],
                         out=np.zeros_like(self._data["XX"]),
-                        where=(self._data["XX"] != 0) & (self._data["YY"] != 0),
+                        where=nonzero,
+                    ) * np.divide(
+                        absXY,
+                        self._data["YY"],
+                        out=np.zeros_like(self._data["XX"]),
+                        where=nonzero,
                     )
                 elif name == "ccoh":
                     val = np.divide(
                         self._data["XY"],
-                        np.sqrt(self._data["XX"] * self._data["YY"]),
+                        np.sqrt(self._data["XX"]) * np.sqrt(self._data["YY"]),
                         out=np.zeros_like(self._data["XX"], dtype=complex),
                         where=(self._data["XX"] != 0) & (self._data["YY"] != 0),
                     )
@@ -1260,7 +1269,7 @@ class SpectrumResult:
                 elif name == "GyySx":
                     val = np.abs(
                         self.Gyy
-                        + self.Hxy * self.Hyx * self.Gxx
+                        + self.Hxy * (self.Hyx * self.Gxx)
                         - self.Hyx * self.Gyx
                         - self.Hxy * self.Gxy
                     )
@@ -1327,7 +1336,7 @@ class SpectrumResult:
                 )
             elif name == "Gxy_dev":
                 val = (
-                    np.sqrt(np.abs(self.Gxy) ** 2 / coh / navg) if self.iscsd else None
+                    np.abs(self.Gxy) / np.sqrt(coh * navg) if self.iscsd else None
                 )
             elif name == "coh_dev":
                 val = (
